@@ -72,6 +72,10 @@ def add_allocs(d, rng, heavy=True):
     d["dan"] = rng.choice([0, 1, 2])
     d["dasz"] = rng.choice([8, 40])
     d["can"] = rng.choice([0, 0, 1])
+    if rng.random() < 0.15:
+        # release-only traffic: the threads free blocks that the main thread allocated before the run and allocate
+        # nothing themselves (draining a pre-filled pool), inside the calls, the generator or the drops
+        d.update({"caops": "", "gan": 0, "dan": 0, "can": 0, "stash": 4096, "stashw": rng.choice([0, 0, 1, 2]), "stashsz": rng.choice([64, 1000])})
     return d
 
 
@@ -218,6 +222,12 @@ def gen_c03(tier, seed):
             d["ic"] = [rng.randrange(4)]
         if rng.random() < 0.1 and d["s"] <= 3 and 0 <= n <= 16:
             d["tsc"] = 0
+        elif rng.random() < 0.4:
+            # coarse or slow clocks: many (or all) samples read zero elapsed ticks; the counts must not depend on the readings
+            d["q"] = rng.choice([8, 100, 10000, 10 ** 6])
+            d["delta"] = rng.choice([1, 1, 2])
+            d["cbase"] = rng.choice([0, 1, 20])
+            d["freq"] = rng.choice([10 ** 9, 10 ** 6, 1, 2_999_999_999])
         out.append(line(d))
         idx += 1
     # test mode and zero budgets
@@ -323,6 +333,21 @@ def gen_c04(tier, seed):
             d["q"] = 1
             d["delta"] = 1
             d["n"] = min(n, 5)
+            if rng.random() < 0.5:
+                # ... on a coarse clock (precision well above 1 ns): the first tuning rounds read 0 ticks, and the limit
+                # is a small multiple of the precision, i.e. it falls among those rounds or shortly after them
+                d["q"] = rng.choice([4, 10, 64])
+                d["cbase"] = rng.choice([1, 1, 2, 5, 50])
+                d["cnoise"] = 0
+                d["freq"] = freq = rng.choice([10 ** 9, 10 ** 6, 10 ** 10, 2_999_999_999, 10 ** 8])
+                d["skip"] = rng.choice([1, 1, 1, 0, -1])
+                prec_ns = max(1, d["q"] * 10 ** 12 // freq // 1000)
+                d.pop("min", None)
+                d.pop("max", None)
+                lim = prec_ns * rng.choice([1, 2, 3, 4, 5, 6, 8, 12, 50, 150, 400]) + rng.choice([0, 0, 1, -1])
+                d[rng.choice(["min", "max", "max"])] = max(0, lim)
+                if "max" not in d:
+                    d["max"] = max(lim, prec_ns) * rng.choice([1, 2, 1000])
         out.append(line(d))
     return out
 
@@ -369,6 +394,11 @@ def gen_c05(tier, seed):
             d["ic"] = sorted(rng.sample([0, 1, 2, 3], rng.randrange(1, 4)))
             d["icmul"] = rng.choice([1, 3, 1000, 2 ** 40])
             d["icmod"] = rng.choice([1 << 20, 1 << 50, 7])
+            if rng.random() < 0.2:
+                # counter values over the whole 64-bit range: a sample's sum exceeds 2^64
+                d["icmul"] = rng.choice([0x9E3779B97F4A7C15, 2 ** 63 + 1, 2 ** 62 + 12345])
+                d["icadd"] = rng.choice([0, 2 ** 63, 2 ** 64 - 7])
+                d["icmod"] = rng.choice([2 ** 64 - 1, 2 ** 63, 2 ** 64 - 59])
         if rng.random() < 0.3:
             d["bc"] = ",".join("%d:%d" % (k, rng.choice([0, 1, 7, 1 << 40])) for k in rng.sample([0, 1, 2, 3], rng.randrange(1, 3)))
         if rng.random() < 0.3:
